@@ -105,6 +105,9 @@ def tables(ctx: Ctx):
     sp = str_pairs(rng, n)
     t = {}
     t["str"] = ({"name": "VARCHAR"}, [{"name": p} for p in sp])
+    codes = ["00123", "123", "0123", "AB12", "ab12", "0", "00", "1e3", "1000", "007", "7", "12.0", "12", " 5", "5", "0x10", "16", "A1", "-1", "+1", "1"]
+    cps = [(a, b) for a in codes for b in codes if a <= b][: (90 if ctx.quick else 400)] + [(rng.choice(codes), rng.choice(codes)) for _ in range(n)]
+    t["code"] = ({"code": "VARCHAR"}, [{"code": p} for p in with_nulls(cps, "00123")])
     t["num"] = ({"amount": "DOUBLE"}, [{"amount": p} for p in num_pairs(rng, n, False)])
     t["int"] = ({"amount": "BIGINT"}, [{"amount": p} for p in num_pairs(rng, n // 2, True)])
     two = []
@@ -143,6 +146,8 @@ KIND_TABLE = {"null": None, "exact": None, "null_pattern": "str", "literal": Non
 
 def tables_for(inst: T.LevelInst, d: str):
     k = inst.kind
+    if inst.cols and inst.cols[0].name == "code":
+        return ["code"]
     if k in ("null", "exact"):
         return ["num", "int"] if inst.cols[0].name == "amount" else ["str"]
     if k == "literal":
@@ -667,10 +672,13 @@ def comp_oracle_rows(inst: T.CompInst, row, d):
     regexp_extract (python `re`), date parsing + epoch (python strptime).  Independent of the implementation."""
     out = []
     for cs in inst.meta.get("ocols", []):
-        for v in row[cs.name]:
-            if not isinstance(v, str):
+        for v0 in row[cs.name]:
+            if not isinstance(v0, str):
                 continue
-            for op in cs.ops:
+            for k_, op in enumerate(cs.ops):
+                v = apply_ops(v0, cs.ops[:k_])       # value the op is applied to (after the preceding transforms)
+                if v is None:
+                    break
                 if op[0] == "regex":
                     import re
                     m = re.search(op[1], v)
